@@ -45,6 +45,25 @@ def drive(rng, tier):
             HX.apply_model(m, x)
         collapse = ("del", Pp + b"\x55", "meth")
         static = False
+    shrink = None
+    directed = None
+    if collapse is None and rng.random() < 0.25:
+        # shrink family: K stored together with two longer keys K+a.., K+b..; the walk is first steered down below K (queries
+        # aimed at K+a), then both longer keys are deleted, so that K collapses into a leaf ABOVE prefixes that are still
+        # unexplored: traversing to those must find nothing (not a piece of K's leaf)
+        K = rng.choice([b"\x12", b"\x12\x34", b"\x00", b""])
+        a, b = rng.sample([b"\x00", b"\x01", b"\x10", b"\x55\x66", b"\xf0"], 2)
+        val = lambda: HX.gen_value(rng) if rng.random() < 0.6 else bytes([rng.choice(HX.VALBYTES)]) * rng.randint(1, 3)
+        writes = [("set", K, val(), "meth"), ("set", K + a, val(), "meth"), ("set", K + b, val(), "meth")]
+        if rng.random() < 0.6:
+            writes.append(("set", HX.gen_key(rng), HX.gen_value(rng), "meth"))
+        rng.shuffle(writes)
+        m = {}
+        for x in writes:
+            HX.apply_model(m, x)
+        shrink = [("del", K + a, "meth"), ("del", K + b, "meth")]
+        directed = (nib(K + a), rng.randint(1, 2 * len(K) + 2))
+        static = False
     ops = [("trie", x) for x in writes]
     outs = [w.step(o) for o in ops]
     stable = dict(m)                 # keys whose value has not changed since the walk began
@@ -53,7 +72,16 @@ def drive(rng, tier):
     done = False
     while not done and stats["steps"] < MAX_STEPS:
         r = rng.random()
-        if collapse is not None and stats["steps"] >= rng.choice([2, 2, 3]):
+        if directed is not None and stats["steps"] < directed[1]:
+            op = ("step", True, directed[0])
+            stats["steps"] += 1
+        elif shrink:
+            wr = shrink.pop(0)
+            op = ("trie", wr)
+            HX.apply_model(m, wr)
+            stable.pop(wr[1], None)
+            stats["mut"] += 1
+        elif collapse is not None and stats["steps"] >= rng.choice([2, 2, 3]):
             wr = collapse
             collapse = None
             op = ("trie", wr)
